@@ -32,7 +32,7 @@ def _f(x):
 _f.calls = 0
 
 
-def judge(x0, lb, ub, plb, pub, spell="2d"):
+def judge(x0, lb, ub, plb, pub, spell="2d", options=None):
     """returns (cell, violation-or-None, detail)"""
     from pybads import BADS
 
@@ -51,7 +51,7 @@ def judge(x0, lb, ub, plb, pub, spell="2d"):
     exc = None
     b = None
     try:
-        b = BADS(_f, sp(x0), sp(lb), sp(ub), sp(plb), sp(pub), options={"display": "off", "random_seed": 3})
+        b = BADS(_f, sp(x0), sp(lb), sp(ub), sp(plb), sp(pub), options=dict({"display": "off", "random_seed": 3}, **(options or {})))
     except Exception as e:
         exc = e
     calls = _f.calls
@@ -203,6 +203,32 @@ def random_part(n, seed):
     return n, cells, viol
 
 
+def coarse_part(n, seed):
+    """valid definitions under COARSE search meshes (documented options search_grid_number / init_mesh_size_integer), with
+    starting-point coordinates a hair inside the effective bounds on OPPOSITE sides: snapping to the mesh pushes some
+    coordinates below the lower and others above the upper bound; the definition is valid and must be accepted"""
+    rs = np.random.RandomState(seed)
+    cells, viol = {}, {}
+    for _ in range(n):
+        D = int(rs.choice([2, 3, 4]))
+        a = np.round(rs.uniform(-5, 5, D), 1)
+        w = np.round(rs.uniform(2, 20, D), 1)
+        lb, ub = a, a + w
+        f1, f2 = rs.uniform(0.05, 0.35, D), rs.uniform(0.4, 0.8, D)
+        plb, pub = a + f1 * w, a + f2 * w
+        side = rs.rand(D) < 0.5
+        side[0], side[1] = True, False
+        eps_ = rs.uniform(1.05e-3, 3e-3, D)
+        x0 = np.where(side, lb + eps_ * w, ub - eps_ * w)
+        opts = {"search_grid_number": int(rs.choice([2, 3, 4, 6]))} if rs.rand() < 0.6 else {"init_mesh_size_integer": int(rs.choice([2, 3]))}
+        cell, key, det = judge(x0, lb, ub, plb, pub, options=opts)
+        cells[str((D, "coarse") + cell)] = cells.get(str((D, "coarse") + cell), 0) + 1
+        if key:
+            viol.setdefault(key, dict(det or {}, x0=x0, lb=lb, ub=ub, plb=plb, pub=pub, options=opts))
+            viol[key]["_n"] = viol[key].get("_n", 0) + 1
+    return n, cells, viol
+
+
 def spelling_part(n, seed):
     from pybads import BADS
 
@@ -296,6 +322,8 @@ def cases(tier, seed):
         out.append({"kind": "random", "n": 40 if tier == "quick" else 1300, "seed": seed * 100 + k})
     for k in range(16):
         out.append({"kind": "spelling", "n": 6 if tier == "quick" else 60, "seed": seed * 100 + k})
+    for k in range(8):
+        out.append({"kind": "coarse", "n": 40 if tier == "quick" else 800, "seed": seed * 100 + 50 + k})
     return out
 
 
@@ -319,6 +347,9 @@ def run_case(case):
     elif k == "random":
         n, cells, viol = random_part(case["n"], case["seed"])
         cnt = {"C08.random_constructor_calls": n}
+    elif k == "coarse":
+        n, cells, viol = coarse_part(case["n"], case["seed"])
+        cnt = {"C08.coarse_mesh_constructor_calls": n}
     else:
         n, pairs, viol = spelling_part(case["n"], case["seed"])
         cells = {}
